@@ -210,6 +210,8 @@ def t_sum(vars_, t):
     vars_ = set(vars_) & free_vars(t) | (set(vars_) - free_vars(t))
     if not vars_:
         return t
+    if t[0] == "add":          # summation is linear: sum(a + b) = sum(a) + sum(b)
+        return t_add(*[t_sum(vars_, x) for x in t[1]])
     if t[0] == "sum":
         return ("sum", tuple(sorted(set(t[1]) | vars_, key=repr)), t[2])
     if is_const(t, 0):
@@ -422,6 +424,8 @@ def elementwise(fname, *args):
         t = t_mul(ts[0], t_recip(ts[1]))
     elif fname == "neg":
         t = t_neg(ts[0])
+    elif fname in ("abs", "sign") and ts[0][0] == "k" and isinstance(ts[0][1], (int, float, Fraction)):
+        t = ("k", abs(ts[0][1]) if fname == "abs" else (ts[0][1] > 0) - (ts[0][1] < 0))
     else:
         t = t_fn(fname, *ts)
     if not any(isinstance(a, AArr) for a in args):
@@ -794,6 +798,8 @@ def reduce_all(a, fname="sum"):
         raise ModelAbort("reduction over an unlabelled axis")
     if fname == "sum":
         return SymScalar(t_sum({vkey(x) for x in a.axes if is_labelled(x)}, a.term))
+    if a.term[0] == "k" and fname in ("max", "min", "amax", "amin", "nanmax", "nanmin"):
+        return SymScalar(a.term)        # extremum of a constant array
     return SymScalar(("fn", fname + "_over", (t_sum(set(), a.term), ("k", repr(sorted(vkey(x) for x in a.axes if is_labelled(x)))))))
 
 
